@@ -1,7 +1,8 @@
 #!/bin/sh
 # every quick check once, ten at a time: harness/tools/run_all_par.sh [seed]
+# prints the VIOLATION lines and the summary line of each check; a check that ends without a summary line (crash, exit 2) is reported as BROKEN
 cd "$(dirname "$0")/../.." || exit 2
 seed=${1:-0}
 ./check C08 --seed $seed >/dev/null 2>&1     # one build first
 printf '%s\n' C01 C02 C03 C04 C05 C06 C07 C08 C09 C10 C11 C12 C13 C14 C15 C16 C17 C18 C19 C20 | \
-  xargs -P 10 -I{} sh -c "./check {} --seed $seed 2>&1 | grep -E '^(VIOLATION|C[0-9][0-9] \[)' | cut -c1-200; true" | sort
+  xargs -P 10 -I{} sh -c "out=\$(./check {} --seed $seed 2>&1); rc=\$?; echo \"\$out\" | grep -E '^(VIOLATION|C[0-9][0-9] \[)' | cut -c1-200; echo \"\$out\" | grep -qE '^{} \[' || echo \"{} BROKEN: no summary line, exit \$rc: \$(echo \"\$out\" | tail -1 | cut -c1-160)\"; true" | sort
